@@ -317,6 +317,9 @@ class CellSim(object):
             server = servers[loaded[idx % len(loaded)]]
         else:
             server = self._server(idx)
+        self._down(server)
+
+    def _down(self, server):
         if server is None or server.state is scheduler.State.down:
             return
         t_lo = self.clock.peek()
@@ -325,6 +328,15 @@ class CellSim(object):
         for label in server.labels:
             self.cell.partitions[label].remove(server)
         self.down_since[server.name] = (t_lo, self.clock.peek())
+
+    def op_fdown(self, idx):
+        """Like down, aimed at a frozen server that hosts instances."""
+        servers = self.servers()
+        frozen = sorted(n for n, srv in servers.items()
+                        if srv.apps and srv.state is scheduler.State.frozen)
+        if not frozen:
+            return self.op_down(idx)
+        return self._down(servers[frozen[idx % len(frozen)]])
 
     def op_up(self, idx):
         server = self._server(idx)
